@@ -63,6 +63,9 @@ func (s *_watchSession) done() <-chan struct{} {
 }
 
 func (s *_watchSession) stop() {
+	// cancel first: the session may still be inside a blocking Watch() call,
+	// in which case nobody is there to receive the shutdown request.
+	s.cancel()
 	s.lc.ShutdownAsync(nil)
 }
 
